@@ -60,9 +60,16 @@ func (k msgServer) AddFeeToDispute(goCtx context.Context,
 	if msg.Amount.Amount.GT(fee) {
 		msg.Amount.Amount = fee
 	}
-	// dispute fee payer
+	// dispute fee payer: a payer who paid before is recorded with the sum of its payments
+	paid := msg.Amount.Amount
+	prevPayment, err := k.Keeper.DisputeFeePayer.Get(ctx, collections.Join(dispute.DisputeId, sender.Bytes()))
+	if err == nil {
+		paid = paid.Add(prevPayment.Amount)
+	} else if !errors.Is(err, collections.ErrNotFound) {
+		return nil, err
+	}
 	if err := k.Keeper.DisputeFeePayer.Set(ctx, collections.Join(dispute.DisputeId, sender.Bytes()), types.PayerInfo{
-		Amount:   msg.Amount.Amount,
+		Amount:   paid,
 		FromBond: msg.PayFromBond,
 	}); err != nil {
 		return nil, err
